@@ -74,6 +74,8 @@ def riccati_psi_xi(x, nstop):
     '''
     if np.imag(x) != 0.:
         raise TypeError('Cannot handle complex arguments.')
+    # scipy's riccati_jn and riccati_yn return nan for a float32 argument
+    x = np.float64(np.real(x))
     psin = riccati_jn(nstop, x)
     # construct riccati hankel function of 1st kind by linear
     # combination of RB's based on j_n and y_n
